@@ -33,7 +33,61 @@ def sink_class(line):
     return (k.group(1) if k else "") + "|" + ",".join(sig) + ("+" if len(ops) > 6 else "")
 
 
+def stream_class(line):
+    m = re.search(r"\bcls=(\S+)", line)
+    c = re.search(r"\bcfg=(\S+)", line)
+    l = re.search(r"\blen=(\d+)", line)
+    if not m:
+        return None
+    # distinct = (family|mode|src|width/channels, block size, length); non-trivial = at least one sample
+    if l and int(l.group(1)) == 0 and "empty" not in line[:60]:
+        return None
+    bs = re.search(r"bs:(\d+)", c.group(1)).group(1) if c else ""
+    return m.group(1) + "|" + bs + "|" + (l.group(1) if l else "")
+
+
+STREAM_RULE = ("stream stream: corpus (witnesses of F1/F3/F4/F9) first, then random (config, PCM) pairs from one PRNG: "
+               "14 signal families (silence, DC, full-scale, alternating, impulses, sine+noise at every amplitude, white, heavy-tailed, "
+               "r=-l, r=l, loud/silent partitions, ramps, near-constant), 8/12/16/20/24 bit, 1..8 channels, rates at every code-class boundary, "
+               "block sizes incl. every explicit-code class, lengths 0/1/15..17/bs-1/bs/bs+1/multi-frame; entry points: single-thread, "
+               "multi-thread W=1..3, frame-by-frame; sources: MemSource, byte fill, no len_hint. Real bytes are decoded by the Lean RFC decoder; "
+               "distinct = (family, mode, source, width/channels, block size, length); empty inputs count once")
+
+STREAM_TRUSTED = ["hand-written Lean decoder Model/Rfc.lean (from RFC 9639) and component writer Model/Component.lean, tied to the code by re-serialising every decoded real stream byte-exactly",
+                  "executable MD5 in Lean (not reasoned about; checked against the md-5 crate on every stream)",
+                  "claxon 0.4.3 as second, independent decoder in the direct oracle"]
+
 PROPS = {
+    "C01": {
+        "streams": {"quick": [("stream", ["--cases", 400, "--max-samples", 6000])],
+                    "thorough": [("stream", ["--cases", 6000, "--max-samples", 40000])],
+                    "search": [("stream", ["--cases", 1500, "--max-samples", 12000])]},
+        "diff_prefix": ["c01."], "oracle_fields": ["o_c01"], "class_of": stream_class, "rule": STREAM_RULE,
+        "trusted_base": STREAM_TRUSTED,
+        "assumptions": ["float estimator output abstracted: theorems quantify over all coefficients/shifts/orders", "source contract: read_samples delivers min(block_size, remaining) samples"],
+    },
+    "C02": {
+        "streams": {"quick": [("stream", ["--cases", 400, "--max-samples", 6000])],
+                    "thorough": [("stream", ["--cases", 6000, "--max-samples", 40000])],
+                    "search": [("stream", ["--cases", 1500, "--max-samples", 12000])]},
+        "diff_prefix": ["c02."], "oracle_fields": ["o_c01"], "class_of": stream_class, "rule": STREAM_RULE,
+        "trusted_base": STREAM_TRUSTED, "assumptions": [],
+    },
+    "C03": {
+        "streams": {"quick": [("stream", ["--cases", 400, "--max-samples", 6000])],
+                    "thorough": [("stream", ["--cases", 6000, "--max-samples", 40000])],
+                    "search": [("stream", ["--cases", 1500, "--max-samples", 12000])]},
+        "diff_prefix": ["c03."], "oracle_fields": ["o_c03"], "class_of": stream_class, "rule": STREAM_RULE,
+        "trusted_base": STREAM_TRUSTED, "assumptions": ["MD5 compression function trusted (executable, cross-checked)"],
+    },
+    "C04": {
+        "streams": {"quick": [("stream", ["--cases", 300, "--max-samples", 6000]), ("stream", ["--cases", 300, "--max-samples", 1200, "--focus", "residues"])],
+                    "thorough": [("stream", ["--cases", 4000, "--max-samples", 40000]), ("stream", ["--cases", 3000, "--max-samples", 2000, "--focus", "residues"])],
+                    "search": [("stream", ["--cases", 1500, "--max-samples", 2000, "--focus", "residues"])]},
+        "diff_prefix": ["c04."], "oracle_fields": ["o_c04"], "class_of": stream_class,
+        "rule": STREAM_RULE + "; plus a residue sweep: block sizes 32/33/64 with every input length 0..2bs (every residue of len mod bs)",
+        "trusted_base": STREAM_TRUSTED, "assumptions": [],
+    },
     "C11": {
         "streams": {
             "quick": [("sink", ["--cases", 3000, "--exhaustive"])],
